@@ -144,9 +144,23 @@ def check_malloc_cpp(ctx, tu, tag, keytag):
                 continue
             wrong = p.calls(lambda q: bare(q) in UNALIGNED)
             if wrong:
-                bad = True
-                report(ctx, p, R, inst, 'memory is obtained from %s, which ignores the requested alignment' % wrong[0][1],
-                       wrong[0][4], key + 'unaligned-allocator')
+                rret = strip_site(unconv(p.ret)) if p.ret is not None else None
+                raw = isinstance(rret, tuple) and rret and rret[0] == 'call' and bare(rret[1]) in UNALIGNED
+                if raw:
+                    bad = True
+                    report(ctx, p, R, inst, 'memory is obtained from %s, which ignores the requested alignment' % wrong[0][1],
+                           wrong[0][4], key + 'unaligned-allocator')
+                    continue
+                if p.ret is not None and p.ret.as_int() == 0:
+                    rb = ev_result_bounds(p, wrong[0])
+                    if rb is not None and rb[0] == rb[1] == 0:
+                        continue        # the unaligned primitive failed, null is passed on
+                    bad = True
+                    ctx.undecided(R, inst, 'a path calls %s and returns null without the block being known to be null' % wrong[0][1],
+                                  wrong[0][4])
+                    continue
+                v = check_manual_alignment(ctx, R, inst, key, tu, f, p, wrong, size, align, producers)
+                bad = bad or not v
                 continue
             al = p.calls(lambda q: bare(q) in FAMILIES)
             ret = strip_site(p.ret) if p.ret is not None else None
@@ -220,10 +234,11 @@ def check_malloc_cpp(ctx, tu, tag, keytag):
                                tu.fn_loc(f), key + 'failure-not-null')
                     continue
             others = [bare(e[1]) for e in al if e is not prod]
+            others = [o for o in others]
             producers.setdefault(q, (prod[4], 'after %s returned null' % ', '.join(others) if others else ''))
-        if not bad and producers:
+        if not bad and any(not isinstance(k, tuple) for k in producers):
             ctx.ok(R, inst, '%s(size, align) in the right positions, result returned%s'
-                   % (' / '.join(sorted(producers)), '; blocks kept by alignedFree are handed out again only if they fit size and '
+                   % (' / '.join(sorted(k for k in producers if not isinstance(k, tuple))), '; blocks kept by alignedFree are handed out again only if they fit size and '
                       'align' if any(not (isinstance(c, tuple) and c[0] == 'attempted') for c in reuse) else ''), tu.fn_loc(f))
         elif not bad:
             ctx.undecided(R, inst, 'no path allocates', tu.fn_loc(f))
@@ -246,7 +261,7 @@ def check_malloc_cpp(ctx, tu, tag, keytag):
                 continue     # nothing to release for a null pointer
             fr = p.calls(lambda q: bare(q) in FREES)
             kept = [loc for loc, v in p.stores().items() if v == ptr and persistent(loc)]
-            own = [e for e in fr if e[3] and e[3][0] == ptr]
+            own = [e for e in fr if e[3] and (e[3][0] == ptr or is_backptr_load(e[3][0], ptr, producers))]
             evict = [e for e in fr if e[3] and isinstance(e[3][0], Poly) and e[3][0].as_atom() in kept]
             rest = [e for e in fr if e not in own and e not in evict]
             for e in fr:
@@ -286,7 +301,26 @@ def check_malloc_cpp(ctx, tu, tag, keytag):
                     continue
         # family agreement: every primitive that can produce a returned pointer must be matched by the release used
         rel_names = sorted({r for r, _ in releases})
-        for q, (where, how) in sorted(producers.items()):
+        attempted = [k for k in producers if isinstance(k, tuple)]
+        for q, (where, how) in sorted((k, v) for k, v in producers.items() if not isinstance(k, tuple)):
+            if isinstance(how, dict):
+                # manual alignment on top of an unaligned primitive: the release must receive the stored original pointer
+                want = how['free']
+                for p in gpaths:
+                    if p.kind != 'return' or p.bounds(pa)[1] == 0:
+                        continue
+                    for e in p.calls(lambda qq: bare(qq) in FREES):
+                        if e[3] and e[3][0] == ptr:
+                            bad = True
+                            ctx.violation(R, inst, 'alignedMalloc returns an address inside a %s chunk (the chunk start is stored %d bytes '
+                                          'below it), but %s receives the returned address itself instead of the stored chunk start'
+                                          % (q, -how['offset'], bare(e[1])), e[4], key=key + 'interior-pointer-released')
+                for r in rel_names:
+                    if r != want:
+                        bad = True
+                        ctx.violation(R, inst, 'a chunk obtained from %s is released with %s; required: %s' % (q, r, want),
+                                      next(l for rr, l in releases if rr == r), key=key + 'family-mismatch')
+                continue
             want = FAMILIES[q]['free']
             for r in rel_names:
                 if r != want:
@@ -302,9 +336,135 @@ def check_malloc_cpp(ctx, tu, tag, keytag):
             bad = True
             ctx.undecided(R, inst, 'no release primitive is called on any path', tu.fn_loc(g))
         if not bad:
-            ctx.ok(R, inst, '%s(ptr), the release primitive of %s' % (' / '.join(rel_names), ' / '.join(sorted(producers)) or '?'),
+            ctx.ok(R, inst, '%s(ptr), the release primitive of %s' % (' / '.join(rel_names), ' / '.join(sorted(k for k in producers if not isinstance(k, tuple))) or '?'),
                    tu.fn_loc(g))
     return n
+
+
+UNALIGNED_FREE = {'malloc': 'free', 'calloc': 'free', 'realloc': 'free', 'scalable_malloc': 'scalable_free',
+                  'scalable_calloc': 'scalable_free', 'scalable_realloc': 'scalable_free'}
+MALLOC_ALIGN = 16       # alignment of chunks returned by the unaligned primitives (glibc / tbbmalloc on LP64)
+
+
+def deconv(v):
+    """polynomial with integral conversions removed everywhere (pointer/size arithmetic read over the integers)"""
+    if not isinstance(v, Poly):
+        return v
+    m = {}
+    for a in v.atoms(deep=False):
+        if isinstance(a, tuple) and a and a[0] == 'conv' and isinstance(a[2], Poly):
+            m[a] = deconv(a[2])
+    return v.subst(m) if m else v
+
+
+def is_backptr_load(v, ptr, producers):
+    """v is the word that a manual alignment scheme stored below the block `ptr`"""
+    a = v.as_atom() if isinstance(v, Poly) else None
+    if not (isinstance(a, tuple) and a and a[0] == 'elem' and len(a) == 4):
+        return False
+    for q, (where, how) in producers.items():
+        if isinstance(q, tuple) and deconv(a[1]) == ptr:
+            return True         # the scheme was already judged (and reported) at alignedMalloc
+        if isinstance(how, dict) and deconv(a[1]) == ptr and isinstance(a[2], Poly) and a[3] is not None and \
+                a[2].as_int() is not None and a[2].as_int() * a[3] == how['offset'] and a[3] == how['width']:
+            return True
+    return False
+
+
+def check_manual_alignment(ctx, R, inst, key, tu, f, p, raw_calls, size, align, producers):
+    """A path of alignedMalloc obtains a chunk from an unaligned primitive and returns an address computed from it.
+    Recognised scheme:  chunk = prim(total);  block = (chunk + k + a - 1) & -a  (the first multiple of a at or above chunk + k);
+    the chunk start is stored in a word at block + offset (offset < 0);  return block.  Decided over the integers:
+      * a is the requested alignment (or a power of two >= it on this path), so block is a multiple of align;
+      * block + size <= chunk + total                      (the caller's bytes lie inside the chunk);
+      * chunk <= block + offset for *every* admissible align (the stored word lies inside the chunk) - the distance
+        block - chunk can be as small as k, or min(align, 16) when k >= 1 because chunks are 16-byte aligned.
+    -> True if the path is fine."""
+    producers.setdefault(('attempted', bare(raw_calls[0][1])), (raw_calls[0][4], ''))
+    if len(raw_calls) != 1:
+        ctx.undecided(R, inst, 'several calls of unaligned allocation primitives on one path', raw_calls[1][4])
+        return False
+    e = raw_calls[0]
+    q = bare(e[1])
+    chunk = None
+    for k in p.state.d:
+        if isinstance(k, tuple) and k[0] == 'fact' and isinstance(k[1], tuple) and k[1] and k[1][0] == 'call' and k[1][1] == e[1] \
+                and k[1][3] == e[3]:
+            chunk = Poly.atom(k[1])
+    V = deconv(unconv(p.ret))
+    va = V.as_atom() if isinstance(V, Poly) else None
+    if chunk is None or not (isinstance(va, tuple) and va and va[0] == 'and' and len(va) == 3):
+        ctx.undecided(R, inst, 'a path obtains memory from %s and returns %s; not a recognised manual alignment scheme'
+                      % (q, show_val(p.ret)), e[4])
+        return False
+    ops = [deconv(va[1]), deconv(va[2])]
+    a = P = None
+    for m, other in (ops, ops[::-1]):
+        if isinstance(m, Poly) and isinstance(other, Poly) and chunk.as_atom() in other.atoms(deep=False) and \
+                chunk.as_atom() not in m.atoms(deep=False):
+            a, P = -m, other
+    if a is None:
+        ctx.undecided(R, inst, 'returned address %s is not `(chunk + k + a - 1) & -a`' % show_val(p.ret), e[4])
+        return False
+    kpoly = P - chunk - a + 1
+    k = kpoly.as_int()
+    if k is None or k < 0:
+        ctx.undecided(R, inst, 'returned address %s: the offset added before rounding (%s) is not a non-negative constant'
+                      % (show_val(p.ret), kpoly.show()), e[4])
+        return False
+    bnd = p.bounds
+    alo, ahi = a.range(bnd)
+    alo = max(alo, 1)
+    # ---- alignment of the result
+    rlo, rhi = (a - align).range(bnd)
+    if not (a == align or (rlo >= 0 and a.as_int() is not None and a.as_int() & (a.as_int() - 1) == 0)):
+        if a.is_const() or only_params(a, [size, align]):
+            ctx.violation(R, inst, 'the chunk from %s is aligned to `%s`, required: the requested alignment `%s`'
+                          % (q, show_val(a), show_val(align)), e[4], key=key + 'manual-alignment-wrong-modulus')
+        else:
+            ctx.undecided(R, inst, 'the chunk from %s is aligned to `%s`; cannot relate it to `%s`' % (q, show_val(a), show_val(align)), e[4])
+        return False
+    # ---- extent: block + size <= chunk + total
+    total = deconv(e[3][0]) if e[3] else None
+    if total is None:
+        ctx.undecided(R, inst, 'unexpected argument list of %s' % q, e[4])
+        return False
+    slack_lo, _ = (total - size - a - k + 1).range(bnd)
+    if slack_lo < 0:
+        if only_params(total, [size, align]) or total.is_const():
+            ctx.violation(R, inst, '%s is asked for `%s` bytes, but the block can start up to `%s` bytes into the chunk: the last %d byte(s) '
+                          'of the caller\'s %s bytes can lie behind the chunk' % (q, show_val(total), show_val(a + k - 1), int(-slack_lo),
+                          show_val(size)), e[4], key=key + 'manual-alignment-chunk-too-small')
+        else:
+            ctx.undecided(R, inst, '%s is asked for `%s` bytes; cannot relate it to size + align' % (q, show_val(total)), e[4])
+        return False
+    # ---- the stored chunk start
+    stores = [(loc, v) for loc, v in p.stores().items() if loc[0] == 'elem' and len(loc) == 4 and v == chunk
+              and isinstance(loc[1], Poly) and deconv(unconv(loc[1])) == V]
+    if len(stores) != 1 or stores[0][0][3] is None or not isinstance(stores[0][0][2], Poly) or stores[0][0][2].as_int() is None:
+        ctx.undecided(R, inst, 'the chunk start obtained from %s is not stored in exactly one word at a constant offset from the returned '
+                      'block; alignedFree cannot find it' % q, e[4])
+        return False
+    loc = stores[0][0]
+    width = loc[3]
+    offset = loc[2].as_int() * width
+    # smallest distance block - chunk over all chunks and all admissible alignments of this path
+    dist = k
+    if k >= 1 and k <= min(alo, MALLOC_ALIGN):
+        dist = min(alo, MALLOC_ALIGN)
+        ctx.assume('chunks returned by malloc-like primitives are %d-byte aligned' % MALLOC_ALIGN)
+    if dist + offset < 0:
+        ctx.violation(R, inst, 'the chunk start is stored in the %d-byte word at block%+d, but for %s = %d the block lies only %d byte(s) '
+                      'above the start of the %s chunk: the word is written %d byte(s) in front of the chunk (out-of-bounds write into '
+                      'the heap\'s own bookkeeping); the scheme needs block - chunk >= %d for every alignment, i.e. %s >= %d enforced or '
+                      '%d spare bytes reserved in front' % (width, offset, show_val(align), int(alo), dist, q, -(dist + offset), -offset,
+                      show_val(align), -offset, -offset), e[4], key=key + 'back-pointer-outside-chunk')
+        return False
+    if offset + width > 0:
+        ctx.undecided(R, inst, 'the chunk start is stored inside the caller\'s block (offset %+d)' % offset, e[4])
+        return False
+    producers.setdefault(q, (e[4], dict(free=UNALIGNED_FREE.get(q, 'free'), offset=offset, width=width)))
+    return True
 
 
 def check_reuse(ctx, R, inst, key, tu, f, p, size, align, gpaths, reuse):
@@ -552,7 +712,21 @@ def check_allocate_paths(ctx, R, inst, key, tu, f, paths, sz, A, M):
     want_size = N * sz
     bad = False
     summary = []
+    # a branch whose condition is computed from an already wrapped function of n decides nothing about n
+    wrapped_conds = {}
     for p in paths:
+        for e in p.events:
+            if e[0] == 'wrap-in-condition' and p.bounds(Na)[1] > M:
+                wrapped_conds.setdefault((e[2], e[1]), e)
+    for (loc, text), e in sorted(wrapped_conds.items()):
+        bad = True
+        ctx.violation(R, inst, 'the test `%s` is made on `%s`, which is computed in size_t and has already wrapped around for n > max_size() = '
+                      '%d (sizeof(T) = %d): an element count above max_size() can pass the overflow test, and alignedMalloc is then asked '
+                      'for the small wrapped byte count and reports success' % (e[3], text, M, sz), loc,
+                      key=key + 'overflow-check-on-wrapped-product')
+    for p in paths:
+        if wrapped_conds and any(e[0] == 'wrap-in-condition' for e in p.events):
+            continue            # nothing was learnt about n on these paths; the defect is reported above
         lo, hi = p.bounds(Na)
         lo, hi = max(lo, 0), min(hi, SIZE_MAX)
         allocs = p.calls(lambda q: q == AM)
@@ -565,7 +739,11 @@ def check_allocate_paths(ctx, R, inst, key, tu, f, paths, sz, A, M):
                 continue
             ty = th[-1][1]
             if ty == 'std::length_error':
-                if lo <= M:
+                if lo <= M and lo * sz + A > SIZE_MAX:
+                    # rejected although n <= max_size(), but byte count + alignment slack is not representable in size_t:
+                    # no aligned allocator could serve it, only the exception type differs from bad_alloc
+                    summary.append('n in %s: length_error (byte count + %d does not fit size_t)' % (rng(lo, hi), A))
+                elif lo <= M:
                     bad = True
                     report(ctx, p, R, inst, 'std::length_error is thrown for n in %s although max_size() = %d: a request that fits is '
                            'rejected' % (rng(lo, min(hi, M)), M), th[-1][2], key + 'length_error-for-fitting-request')
